@@ -8,6 +8,7 @@ import (
 	"verifharness/drv/ag"
 	"verifharness/drv/cf"
 	"verifharness/drv/cfg"
+	"verifharness/drv/dd"
 	"verifharness/drv/ec"
 	"verifharness/drv/fr"
 	"verifharness/drv/frl"
@@ -80,6 +81,8 @@ func main() {
 		os.Exit(rbs.AgentMain(os.Args[2:]))
 	case "idg":
 		os.Exit(idg.Main(os.Args[2:]))
+	case "dd":
+		os.Exit(dd.Main(os.Args[2:]))
 	case "hb":
 		os.Exit(hb.Main(os.Args[2:]))
 	default:
